@@ -141,7 +141,7 @@ inductive VState where
 def vlConf (L : LossDef) (batches : List Batch) (patience : Nat) (early : Bool) :
     VLConf Params Nat Batch :=
   { nextBatch := fun k => (k + 1, batches.getD k ⟨[]⟩),
-    loss := fun θ b => (lossTotal L θ b).getD 0,
+    loss := fun θ b => lossTotal L θ b,
     patience := patience, early := early }
 
 def validateOf (vc : Option ValConf) (s : VState) (θ : Params) : VOut VState Val :=
@@ -151,7 +151,7 @@ def validateOf (vc : Option ValConf) (s : VState) (θ : Params) : VOut VState Va
     { vs := .scripted (c + 1), stop := o.2.2, crit := o.1, improved := o.2.1 }
   | some ⟨_, .vloss L bs pat early⟩, .vl s =>
     let o := VL.call (vlConf L bs pat early) s θ
-    { vs := .vl o.vs, stop := o.stop, crit := some o.crit, improved := o.improved }
+    { vs := .vl o.vs, stop := o.stop, crit := o.crit, improved := o.improved }
   | _, s => { vs := s, stop := false, crit := some 0, improved := false }
 
 def initVState (vc : Option ValConf) : Option VState :=
